@@ -176,6 +176,10 @@ func (s *serveOpts) keygen(c echo.Context) error {
 
 func (s *serveOpts) bulk(c echo.Context) error {
 	ctx := c.Request().Context()
+	// Requests are still being read while the first responses are written:
+	// without full duplex, HTTP/1 closes the request body as soon as the
+	// response starts, and the rest of the stream is lost.
+	_ = http.NewResponseController(c.Response()).EnableFullDuplex()
 	c.Response().Header().Set(echo.HeaderContentType, echo.MIMEApplicationJSON)
 	c.Response().WriteHeader(http.StatusOK)
 
